@@ -423,6 +423,52 @@ def rule_a9(repo, col):
     col.floor("A9.relation_cases", n, 12)
 
 
+def rule_a10(repo, col):
+    """arg/3: arg(N, T, A) selects the N-th argument (1-based) for 1 <= N <= arity and fails outside that range (folded for N = 0..3 on a term of arity 2)"""
+    from .. import dtable
+    from ..astutil import const_value
+
+    MOD = "problog.engine_builtin"
+    f = repo.func(MOD, "_builtin_arg")
+    m = f.module
+    if len(f.params) < 3:
+        raise AnalysisError("_builtin_arg: parameters not understood")
+    idx, term = f.params[0], f.params[1]
+    paths = dtable.extract(f.node, opaque_loops=True)
+    n = 0
+    arity = 2
+    for N in (0, 1, 2, 3):
+        mapping = [("int(%s)" % idx, N), ("len(%s.args)" % term, arity), ("%s.arity" % term, arity)]
+        ps = [p_ for p_ in dtable.compatible(paths, mapping) if not any(s_.startswith("<except") for s_, _, _ in p_.conds)]
+        ps = [p_ for p_ in ps if all(dtable.eval_atom(s_, mapping, None) is not None for s_, _, _ in p_.conds)]
+        if len(ps) != 1 or ps[0].end != "return":
+            raise AnalysisError("_builtin_arg: %d decided paths for N=%d" % (len(ps), N))
+        val = ps[0].value
+        n += 1
+        if val == "[]":
+            sel = None
+        else:
+            try:
+                e = ast.parse(val, mode="eval").body
+            except SyntaxError:
+                raise AnalysisError("_builtin_arg: return value not parseable")
+            subs = [x for x in ast.walk(e) if isinstance(x, ast.Subscript) and norm(x.value) == "%s.args" % term]
+            if len(subs) != 1:
+                raise AnalysisError("_builtin_arg: selected argument not found in %s" % val[:80])
+            txt = dtable_text(norm(subs[0].slice), mapping)
+            okf, sel = const_value(ast.parse(txt, mode="eval").body)
+            if not okf or not isinstance(sel, int):
+                raise AnalysisError("_builtin_arg: selected position not foldable: %s" % txt)
+            if sel < 0:
+                sel = ("from the end", sel)
+        want = N - 1 if 1 <= N <= arity else None
+        col.decide("A10", m, f.node, sel == want, "arg(%d, f(a,b), A): %s" % (N, "argument %d" % N if want is not None else "fails"),
+                   "arg(%d, T, A) on a term of arity %d %s; Prolog's arg/3 enumerates exactly the positions 1..arity and fails for N = 0 and N > arity"
+                   % (N, arity, "fails" if sel is None else "selects %s.args[%s]" % (term, sel if isinstance(sel, int) else sel[1])),
+                   construct="_builtin_arg: N=%d" % N, function="_builtin_arg")
+    col.floor("A10.arg_positions", n, 4)
+
+
 def dtable_text(src, mapping):
     from .. import dtable
 
@@ -432,6 +478,7 @@ def dtable_text(src, mapping):
 
 
 def run(repo, col):
+    col.rule("A10", "arg/3 selects positions 1..arity only")
     col.rule("A9", "succ/2 and plus/3: one relation in every call mode")
     col.rule("A8", "length/2 answers are closed lists in the partial-list modes")
     col.rule("A1", "documented arithmetic functions/predicates exist in the dispatch table / builtin registry")
@@ -448,3 +495,4 @@ def run(repo, col):
     rule_a7(repo, col)
     rule_a8(repo, col)
     rule_a9(repo, col)
+    rule_a10(repo, col)
